@@ -274,6 +274,18 @@ def _evaluate_vector(case):
     R = _span_residual(y0.T, dy.T, A)
     if np.all(R <= VEC_TOL):
         return c.result()
+    # Above the tolerance: truncation error of the 5-point stencil (h^4 y^(5); large next to a zero of j_l, where the
+    # vectors' derivatives blow up - thorough tier: 1.02e-6 at x = 5.73, j_2 vanishes at 5.76) or a vector that is not a
+    # solution?  Repeat with half the step: a truncation error drops 16x, a genuine residual stays.  The half-step residual is
+    # judged, and the change between the two steps (an estimate of the remaining truncation error) is added to the tolerance.
+    with repo_call('find_starting_conditions'):
+        yh = {s_: _start(kind, fam_eff, w, r * (1.0 + s_ * 0.5 * h), rho, K, mu, l) for s_ in (-2, -1, 1, 2)}
+    dy2 = (yh[-2] - 8.0 * yh[-1] + 8.0 * yh[1] - yh[2]) / (12.0 * 0.5 * h * r)
+    R2 = _span_residual(y0.T, dy2.T, A)
+    c.label('vector:step_halved')
+    if np.all(R2 <= VEC_TOL + 0.2 * np.abs(R - R2)):
+        return c.result()
+    R, dy = R2, dy2
     info = 'kind=%s family=%s l=%d r=%.6g rho=%.6g mu=%r K=%.6g w=%.6g; span residual (rows x solutions)=%s' % (
         kind, fam_eff, l, r, rho, mu, K, w, np.array2string(R, precision=2))
     # ---- diagnosis: is the damage confined to the y6 component of solid solutions 0 and 1? ------------------
